@@ -27,7 +27,7 @@ SIG_ROUNDING = "x2max0-exact-match-rounding"
 CHECK_ARGS = dict(
     pkg="bmci", props="Proofs.Props.C18", driver="drv_c18",
     lemma_files=["Proofs/Lemmas/ListAux.lean", "Proofs/Lemmas/Window.lean", "Proofs/Lemmas/Stats.lean",
-                 "Proofs/Lemmas/Interp.lean"],
+                 "Proofs/Lemmas/Interp.lean", "Proofs/Lemmas/Ecdf.lean"],
     model_files=["Model/Bmci.lean"],
     trusted=[
         "hand-written model Model/Bmci.lean tied to typhon/retrieval/bmci/bmci.py by the correspondence run of this check "
@@ -335,7 +335,8 @@ def run_case(ck, case, use_model=True):
                 k = int(bad[0])
                 yp, sl, su = real.bounds_inputs(y_obs, x2)
                 near = abs(complex(proj_c[k]) - complex(yp)) <= 256 * EPS * max(1.0, float(np.max(np.abs(proj_c))))
-                sig = SIG_ROUNDING if (x2 == 0.0 and float(chi2s[k]) == 0.0 and near) else "pruning-unsound"
+                inside = lexkey(sl) <= lexkey(proj_c[k]) <= lexkey(su)
+                sig = "window-spec" if inside else (SIG_ROUNDING if (x2 == 0.0 and float(chi2s[k]) == 0.0 and near) else "pruning-unsound")
                 ck.violation(sig, f"x2_max={x2}: window ({il},{iu}) leaves out sorted entry {k} (original {int(real.order[k])}) "
                                   f"whose chi2={float(chi2s[k]):.6g} does not exceed x2_max; its projection {complex(proj_c[k]).real!r}, "
                                   f"y_proj {complex(yp).real!r}", c1)
